@@ -1,8 +1,17 @@
 """Per-property claims rendered into MANIFEST.json by tools/mkmanifest.py."""
 HOOK_COMMITS = []   # no source hooks needed so far
-FIX_COMMITS = ["12c75c5 fix: make_patch op order (C13)", "8c66073 fix: resolved pointers escaped (C13)", "4756b94 fix: huawei multi_all unchanged lines (C11)", "81e31d8 fix: implicit default block with its defaults (C17)", "5bfc12a fix: order_config word boundary (C08)", "943f14e fix: patch sort key (C08)", "1bcbbe1 fix: rewrite logic sends the new line ... (C01)", "28efb2a fix: file mode builds the patch from the complete diff (C16)", "c62ee59 fix: pool parent loop leaves only when the done queue is drained (C12)"]
+FIX_COMMITS = ["e01415d fix: optixtrans match expression (C18)", "12c75c5 fix: make_patch op order (C13)", "8c66073 fix: resolved pointers escaped (C13)", "4756b94 fix: huawei multi_all unchanged lines (C11)", "81e31d8 fix: implicit default block with its defaults (C17)", "5bfc12a fix: order_config word boundary (C08)", "943f14e fix: patch sort key (C08)", "1bcbbe1 fix: rewrite logic sends the new line ... (C01)", "28efb2a fix: file mode builds the patch from the complete diff (C16)", "c62ee59 fix: pool parent loop leaves only when the done queue is drained (C12)"]
 PENDING = {}
 CLAIMS = {
+    "C18": {
+        "technique": "TLA+ hardware database semantics (HwDb.tla: regex-chain truth, most specific vendor, registration as actions); TLC MC over all registration orders incl. a tie regression instance; exhaustive enumeration of devdb.json judged by a TLC trace judge",
+        "text": "TLC explores every registration order: the implementation's choice rule is order independent exactly when the most specific match is unique. For 161 of the 168 database sequences (model string "
+                "synthesised from the regex chain) and every vendor's canonical hardware: HardwareView truth of every full sequence equals the regex-chain truth and is hierarchical; fresh Registry objects under "
+                "permuted registration give one vendor, the most specific one; get_rulebook for every model x software-version shape loads, resolves every logic function, compiles every row regex, and two fresh "
+                "providers give equal rulebooks.",
+        "note": "Loadability is enumerated and judged, not modelled (Mako rendering / imports have no useful abstraction). 7 sequences (B4com.*, PC.Nebius*) get no synthesised model string (skipped, listed in evidence). "
+                "Per-node regex hits via re.search (trusted).",
+    },
     "C20": {
         "technique": "TLA+ model of a worker process with caches serving a job history (History.tla) with the code's protections as switches; TLC MC incl. regression instances; TLC-enumerated job sequences executed in one forked process vs each job in a fresh process; TLC trace judge",
         "text": "TLC checks observational determinism over all job sequences <=3 of an abstract menu with the protections on (provider cache keyed by hardware, per-call copies of rule attributes) and shows each "
